@@ -53,8 +53,13 @@ var HistNameOrder = []string{"plain", "spaces", "suffix", "dots", "short", "glob
 
 // start stamps: index 1..9 -> offset from today's midnight (UTC); 1..3 fall on the day before
 var histStampOff = []time.Duration{0, -900 * time.Millisecond, -100 * time.Millisecond, -50 * time.Millisecond,
-	50 * time.Millisecond, 700 * time.Millisecond, 30 * time.Second, 30*time.Second + time.Millisecond, 70 * time.Second, 3 * time.Hour}
-var HistSec = []int{1, 1, 1, 2, 2, 3, 3, 4, 5}
+	50 * time.Millisecond, 700 * time.Millisecond, 30 * time.Second, 30*time.Second + time.Millisecond, 70 * time.Second, 3 * time.Hour,
+	// 10..24: one run every minute from 04:00 (long histories: the directory listing is sorted with an unstable sort
+	// from 13 entries on, so which of two files with the same stamp comes first changes with the size of the history)
+	4*time.Hour + 0*time.Minute, 4*time.Hour + 1*time.Minute, 4*time.Hour + 2*time.Minute, 4*time.Hour + 3*time.Minute, 4*time.Hour + 4*time.Minute,
+	4*time.Hour + 5*time.Minute, 4*time.Hour + 6*time.Minute, 4*time.Hour + 7*time.Minute, 4*time.Hour + 8*time.Minute, 4*time.Hour + 9*time.Minute,
+	4*time.Hour + 10*time.Minute, 4*time.Hour + 11*time.Minute, 4*time.Hour + 12*time.Minute, 4*time.Hour + 13*time.Minute, 4*time.Hour + 14*time.Minute}
+var HistSec = []int{1, 1, 1, 2, 2, 3, 3, 4, 5, 6, 7, 8, 9, 10, 11, 12, 13, 14, 15, 16, 17, 18, 19, 20}
 
 func fullReq(r string) string { return r + "-0123456789abcdef" }
 
